@@ -125,10 +125,13 @@ class Fn:
 
 # ----------------------------------------------------------------------------- translator
 
+RAISE_EXITS = False      # the action-space world treats `raise` as leaving the function (continuation style)
+
+
 def _exits(stmts):
     """does a statement list contain return / continue (outside nested loops for continue)?"""
     for st in stmts:
-        if isinstance(st, (ast.Return, ast.Continue, ast.Break)):
+        if isinstance(st, (ast.Return, ast.Continue, ast.Break)) or (RAISE_EXITS and isinstance(st, ast.Raise)):
             return True
         if isinstance(st, ast.If) and (_exits(st.body) or _exits(st.orelse)):
             return True
